@@ -157,8 +157,8 @@ def main():
   except Exception as e:  # pylint: disable=broad-except
     rep.finding("C14-bn-pair-finder-needs-keras2-graph",
                 f"find_bn_fusing_layer_pair (called first by model_save_quantized_weights) raises {type(e).__name__}: {str(e)[:140]}; "
-                "the harness replaces it by a function returning no pairs", {})
-  U.find_bn_fusing_layer_pair = lambda model, custom_objects=None: ({}, set())
+                "the harness installs the four Keras-2 accessor shims of harness/env.py, after which the real pair finder runs unmodified", {})
+  env.install_keras2_graph_shims()
   n = 16 if rep.tier == "quick" else 300
   po2_t, auto_t, items = [], [], []
   n_ok = n_ind = 0
@@ -426,7 +426,7 @@ def main():
                 f"clone_model_and_freeze_auto_po2_scale on a Sequential model raises {type(e).__name__}: {str(e)[:140]} "
                 "(Keras 3 Sequential.layers has no InputLayer, the utility drops layers[0]); functional models are used instead", {})
   U.find_bn_fusing_layer_pair = orig_find
-  rep.assumptions += ["find_bn_fusing_layer_pair is replaced by a harness function returning no pairs (it needs the Keras-2 graph helper: known finding); "
+  rep.assumptions += ["find_bn_fusing_layer_pair needs four Keras-2 accessors (known finding); the harness installs them as pure accessors and the real finder runs; "
                       "QBatchNormalization does not build under the pinned Keras 3, so add_bn_fusing_weights is driven on stand-in layers exposing the "
                       "attributes it reads; rsqrt is an oracle (the harness passes TensorFlow's value to the model)",
                       "layer weights / predictions / second export are compared bitwise on the implementation; the hardware tuples are judged by the Coq "
